@@ -920,7 +920,132 @@ class ExplicitFillings:
         return bool(bad), dict(check="attributes re-determined from an explicit filling array", failing=bad[:3])
 
 
+class Smear:
+    """Occupations.smear(epsilon): the stored fillings are (2 / Nspin) * fermi(epsilon, Efermi) with Efermi = get_Efermi(self, epsilon), so that - by the
+    contracts of the callees (C13.get_Efermi.objective_is_k_weighted_count: Efermi is a root of (2/Nspin) sum_k wk sum_states fermi - Nelec;
+    C13.fermi_distribution.range_monotone: 0 <= fermi <= 1) - the k-weighted fillings sum to Nelec and lie in [0, 2/Nspin].
+    Executed on a (2 k-points x Nspin x 3 states) array of symbolic Fermi factors; Nspin = 1 and 2."""
+
+    def __call__(self, ob, tier, seed):
+        from contracts.c10 import Arr, ext_table
+        from contracts.state_common import clone
+
+        n = 0
+        try:
+            for Nspin in (1, 2):
+                w, occ, base = _filled_world(Nspin, False)
+                NK, NST = 2, 3
+                F = Arr((NK, Nspin, NST))
+                for k in range(NK):
+                    for a in range(Nspin):
+                        for i in range(NST):
+                            F.a[k, a, i] = named(w, f"fermi{k}{a}{i}", "real")
+                wk = [named(w, f"wk{k}", "real") for k in range(NK)]
+                ne = occ.fields["_Nelec"].e
+                ef = named(w, "Efermi", "real")
+                eps = named(w, "epsilon", "val")
+                calls = {}
+
+                def get_Efermi(it, a, k, ef=ef, calls=calls):
+                    calls["Efermi"] = (a[0], a[1] if len(a) > 1 else k.get("epsilon"))
+                    return ef
+
+                def fermi(it, a, k, F=F, calls=calls):
+                    calls["fermi"] = list(a)
+                    return F
+
+                ext = ext_table(w)
+                ext.update({"func:get_Efermi": get_Efermi, "func:fermi_distribution": fermi})
+                fl = [F.a[k, a, i].e for k in range(NK) for a in range(Nspin) for i in range(NST)]
+                root = sum((wk[k].e * F.a[k, a, i].e for k in range(NK) for a in range(Nspin) for i in range(NST)), z3.RealVal(0)) * 2 / Nspin == z3.ToReal(ne)
+                hyps = [c for c in base if "%" not in str(c)] + [x >= 0 for x in fl] + [x <= 1 for x in fl] + [root, occ.fields["_smearing"].e > 0]
+
+                def run(it, occ=occ, eps=eps):
+                    s_ = clone(occ)
+                    f = it.get_attr(s_, "smear")
+                    r = it.call(f, [eps], {})
+                    return r, s_
+
+                res = explore(w, run, assumptions=hyps, ext=ext, max_paths=32)
+                for r in res:
+                    if r.outcome == "cut":
+                        continue
+                    if r.outcome != "return":
+                        raise OutsideSubset(f"smear ended with {r.outcome}: {r.value}")
+                    f_ = r.state.fields["_f"]
+                    if not isinstance(f_, Arr) or f_.a.shape != (NK, Nspin, NST):
+                        raise OutsideSubset(f"stored fillings are {type(f_).__name__}")
+                    if "fermi" not in calls or "Efermi" not in calls:
+                        raise OutsideSubset("smear does not call get_Efermi / fermi_distribution")
+                    fa = calls["fermi"]
+                    it = r.interp
+                    okargs = fa[0] is eps and fa[1] is ef and it.as_z3(fa[2], "real") is not None and calls["Efermi"][1] is eps
+                    goals = [("fermi_distribution is evaluated at (epsilon, Efermi, smearing) and Efermi = get_Efermi(self, epsilon)", z3.BoolVal(bool(okargs)))]
+                    if okargs:
+                        goals.append(("third argument is the smearing width", it.as_z3(fa[2], "real") == occ.fields["_smearing"].e))
+                    ent = [it.as_z3(f_.a[k, a, i], "real") for k in range(NK) for a in range(Nspin) for i in range(NST)]
+                    if any(e is None for e in ent):
+                        raise OutsideSubset("non-numeric filling")
+                    tot = sum((wk[k].e * it.as_z3(f_.a[k, a, i], "real") for k in range(NK) for a in range(Nspin) for i in range(NST)), z3.RealVal(0))
+                    goals += [("k-weighted fillings sum to Nelec", tot == z3.ToReal(ne)), ("0 <= f <= 2/Nspin", z3.And([z3.And(e >= 0, e <= z3.RealVal(2) / Nspin) for e in ent])),
+                              ("smear returns the Fermi level", it.as_z3(r.value, "real") == ef.e if isinstance(r.value, Sym) else z3.BoolVal(False))]
+                    for label, g in goals:
+                        v, model = check_valid(w, r.path.pc, g, timeout_ms=20000)
+                        n += 1
+                        if v != "proved":
+                            wit = dict(Nspin=Nspin, clause=label)
+                            ok, info = self.replay(wit)
+                            return Result(REFUTED if ok else UNDECIDED, backend="z3", witness=wit, replayed=ok, replay_info=info, solver_output=str(model)[:800],
+                                          detail=f"smear (Nspin={Nspin}): post-condition `{label}` fails")
+            if n == 0:
+                return Result(UNDECIDED, backend="engine-Z", detail="no post-condition reached (smearing == 0 on every path?)")
+            return Result(DISCHARGED, backend="z3", stats=dict(postconditions=n))
+        except (OutsideSubset, PyRaise, TypeError, AttributeError, KeyError, ValueError, IndexError, z3.Z3Exception) as e:
+            ok, info = self.replay({})
+            if ok:
+                return Result(REFUTED, backend="native-contract-evaluation", witness=dict(case="random spectra"), replayed=True, replay_info=info,
+                              detail=f"smear: fillings violate the invariants natively ({type(e).__name__}: {e})")
+            return Result(UNDECIDED, backend="engine-Z", detail=f"outside subset: {type(e).__name__}: {e}")
+
+    def replay(self, wit):
+        import eminus
+        from eminus.occupations import Occupations
+
+        eminus.config.backend = "numpy"
+        eminus.config.verbose = "critical"
+        rng = np.random.default_rng(5)
+        bad = []
+        for Nspin, ne, nst, wk in ((1, 4, 4, [0.25, 0.75]), (2, 3, 4, [0.5, 0.5]), (2, 6, 5, [0.2, 0.3, 0.5]), (1, 2, 3, [1.0])):
+            o = Occupations()
+            o.Nelec, o.Nspin = ne, Nspin
+            o.smearing = 0.02
+            o.bands = nst
+            o.wk = wk
+            o.fill()
+            eps = np.sort(rng.uniform(-0.5, 0.5, (len(wk), Nspin, o.Nstate)), axis=2)
+            try:
+                ef = o.smear(eps)
+            except Exception as e:  # noqa: BLE001
+                bad.append(dict(Nspin=Nspin, Nelec=ne, wk=wk, raised=f"{type(e).__name__}: {e}"))
+                continue
+            f = np.asarray(o.f, float)
+            tot = float(np.sum(np.asarray(wk)[:, None, None] * f))
+            msgs = []
+            if abs(tot - ne) > 1e-6:
+                msgs.append(f"k-weighted sum {tot} != Nelec {ne}")
+            if f.min() < -1e-12 or f.max() > 2 / Nspin + 1e-12:
+                msgs.append(f"fillings outside [0, {2 / Nspin}]")
+            if np.any(np.diff(f, axis=2) > 1e-12):
+                msgs.append("fillings increase with the energy")
+            if msgs:
+                bad.append(dict(Nspin=Nspin, Nelec=ne, wk=wk, Efermi=float(ef), violated=msgs))
+        return bool(bad), dict(check="invariants of the fillings after smear() on random spectra", failing=bad[:3])
+
+
 def _register_fill():
+    register(Obligation(name="C13.smear.fillings_invariants", prop=PROP, engine="Z", functions=["eminus.occupations:Occupations.smear", "eminus.tools:get_Efermi", "eminus.tools:fermi_distribution"],
+                        run=Smear(), assumes=("engineZ", "z3", "callee-contract", "numpy-structural"),
+                        doc="smear(): fillings = (2/Nspin) fermi(epsilon, get_Efermi(self, epsilon), smearing); with the callee contracts: k-weighted sum == Nelec, 0 <= f <= 2/Nspin, returns Efermi"))
     register(Obligation(name="C13.f_setter.explicit_array", prop=PROP, engine="Z", functions=["eminus.occupations:Occupations.f", "eminus.occupations:Occupations._update_from_fillings"],
                         run=ExplicitFillings(), assumes=("engineZ", "z3", "numpy-structural"),
                         doc="occ.f = explicit 2 x Nstate array (symbolic values, Nstate = 3): Nelec, charge, Nstate, Nspin and spin = |sum(up) - sum(down)| follow from the array"))
